@@ -22,7 +22,8 @@ class C18(Prop):
     search_n = 60
     bits = {4: "the output is not a concatenation of the files' whole blocks (a diagnostic or a file's block was torn / lost / duplicated)",
             8: "the summary's totals are not the sums over the files",
-            16: "exit status differs from the single-threaded run"}
+            16: "exit status differs from the single-threaded run",
+            32: "a worker panicked and the exit status is 0 (at 1 or at N threads)"}
     rule = ("file sets mixing clean, warning-only, erroring, unparsable, missing, tiny and large (hundreds to thousands of diagnostics, "
             ">8 KiB and >64 KiB of output) files; styles quiet and json2; --num-threads 2/3/8/16/64 against the --num-threads 1 run of the "
             "same set; the per-file blocks are taken from the sequential run, the observed parallel output must parse into exactly those "
@@ -87,7 +88,11 @@ class C18(Prop):
                 chosen.append("missing_%d.lua" % i)
             if rnd.random() < 0.3:
                 chosen.insert(rnd.randrange(len(chosen) + 1), "zpanic.lua")
-            walk_udir = rnd.random() < 0.35
+            if rnd.random() < 0.15:
+                # nothing but clean files and the panicking one: only the dead worker can make the exit status non-zero
+                chosen = [f for f in names if files[f].startswith("print(") and "undefined" not in files[f]][:rnd.choice([2, 5, 12])] + ["zpanic.lua"]
+                rnd.shuffle(chosen)
+            walk_udir = rnd.random() < 0.35 and not (len(chosen) <= 13 and "zpanic.lua" in chosen and all(files.get(f, "x").startswith("print(") for f in chosen if f != "zpanic.lua"))
             if walk_udir:
                 chosen.insert(rnd.randrange(len(chosen) + 1), "udir")
             style = rnd.choice(["quiet", "quiet", "json2"])
@@ -164,9 +169,10 @@ class C18(Prop):
             par = [ids.get(l, 999999999) for l in lines_of(out2)]
             _, summ2, _ = cli.parse_output(out2, style)
             summ2 = summ2 or (0, 0, 0)
-            term = "CRun %s %s (%s, %s, %s) %s %s" % (
+            term = "CRun %s %s (%s, %s, %s) %s %s %s" % (
                 cli.glist(jobs_terms), cli.glist(cli.gN(x) for x in par),
-                cli.gN(summ2[0]), cli.gN(summ2[1]), cli.gN(summ2[2]), cli.gN(rc1 & 255), cli.gN(rc2 & 255))
+                cli.gN(summ2[0]), cli.gN(summ2[1]), cli.gN(summ2[2]), cli.gN(rc1 & 255), cli.gN(rc2 & 255),
+                cli.gbool("zpanic.lua" in chosen))
             torn = [l for l in lines_of(out2) if l not in ids][:3]
             items.append((term, {"kind": style, "threads": threads, "files": len(chosen), "lines": len(par), "blocks": nblocks,
                                  "summary": list(summ2), "exit": [rc1, rc2], "unknown_lines": torn,
